@@ -2,6 +2,7 @@ package detectsim
 
 import (
 	"bytes"
+	"runtime"
 	"sync"
 	"time"
 
@@ -29,21 +30,76 @@ type Call struct {
 
 // RunState is the per-run state behind the registry wrappers.
 type RunState struct {
-	mu       sync.Mutex
-	cfg      *RunConfig
-	sim      bool
-	stream   *Stream
-	wi       WorkflowInfo
-	index    map[string]int // first 16 bytes of sample k -> k
-	matrix   [][]Cell       // scripted results [sample][item]
-	Calls    []Call
-	Observed map[int]map[int]Cell // sample -> item -> result actually returned to the workflow
-	track    bool
-	memo     map[string]*randomness.TestResult
-	prelude  bool
+	mu         sync.Mutex
+	cfg        *RunConfig
+	sim        bool
+	stream     *Stream
+	wi         WorkflowInfo
+	index      map[string]int // first 16 bytes of sample k -> k
+	matrix     [][]Cell       // scripted results [sample][item]
+	Calls      []Call
+	Observed   map[int]map[int]Cell // sample -> item -> result actually returned to the workflow
+	track      bool
+	memo       map[string]*randomness.TestResult
+	prelude    bool
 	companions []string
-	nested   []string
-	ncalls   int
+	nested     []string
+	ncalls     int
+	dups       map[int][]int // first sample with some content -> all samples with that content
+	ls         map[int]*lsGate
+	lsOff      bool
+}
+
+type lsGate struct {
+	n    int
+	open bool
+	ch   chan struct{}
+}
+
+// lockstep holds a runner call of the first batch until every worker of the
+// batch has arrived at the same item (real goroutines only; gives up after
+// 20 s of real time and stays off for the rest of the run).
+func (st *RunState) lockstep(item int) {
+	need := runtime.NumCPU()
+	if need > st.wi.Samples {
+		need = st.wi.Samples
+	}
+	st.mu.Lock()
+	if st.lsOff || need < 2 || !st.wi.Fast {
+		st.mu.Unlock()
+		return
+	}
+	if st.ls == nil {
+		st.ls = map[int]*lsGate{}
+	}
+	g := st.ls[item]
+	if g == nil {
+		g = &lsGate{ch: make(chan struct{})}
+		st.ls[item] = g
+	}
+	if g.open {
+		st.mu.Unlock()
+		return
+	}
+	g.n++
+	if g.n >= need {
+		g.open = true
+		close(g.ch)
+		st.mu.Unlock()
+		return
+	}
+	st.mu.Unlock()
+	select {
+	case <-g.ch:
+	case <-time.After(20 * time.Second):
+		st.mu.Lock()
+		st.lsOff = true
+		if !g.open {
+			g.open = true
+			close(g.ch)
+		}
+		st.mu.Unlock()
+	}
 }
 
 var active struct {
@@ -94,6 +150,9 @@ func wrapRunner(item int) randomness.TestFunc {
 			simrt.Yield("runner." + itoa(item))
 		} else {
 			stir(uint64(len(data)*31 + item))
+			if st.cfg.Runners.Lockstep {
+				st.lockstep(item)
+			}
 		}
 		if sp := st.cfg.Runners; st.sim && sp.SlowEvery > 0 {
 			st.mu.Lock()
@@ -118,6 +177,14 @@ func wrapRunner(item int) randomness.TestFunc {
 			res = &randomness.TestResult{Name: ItemNames[item], P: c.P, Q: c.Q, P2: c.P2, Q2: c.Q2, Pass: c.Pass}
 		}
 		st.mu.Lock()
+		if ks := st.dups[k]; k >= 0 && len(ks) > 0 {
+			for _, kk := range ks {
+				if _, done := st.Observed[kk][item]; !done {
+					k = kk
+					break
+				}
+			}
+		}
 		st.Calls = append(st.Calls, Call{Item: item, Sample: k, Len: len(data), Diff: diff})
 		if k >= 0 {
 			if st.Observed[k] == nil {
@@ -224,12 +291,32 @@ func NewRunState(cfg *RunConfig, st *Stream, sim bool) *RunState {
 		B := rs.wi.SampleBytes
 		for k := 0; k < rs.wi.Samples; k++ {
 			s := st.Slice(int64(k)*int64(B), 16)
-			if s != nil {
-				rs.index[string(s)] = k
+			if s == nil {
+				continue
 			}
+			if k0, ok := rs.index[string(s)]; ok {
+				// the same content as an earlier sample (a repeated sample): calls
+				// are attributed to the copies in turn, results are those of the first
+				if cfg.Stream.DupLen > 0 && bytes.Equal(st.Slice(int64(k0)*int64(B), B), st.Slice(int64(k)*int64(B), B)) {
+					if rs.dups == nil {
+						rs.dups = map[int][]int{}
+					}
+					if len(rs.dups[k0]) == 0 {
+						rs.dups[k0] = []int{k0}
+					}
+					rs.dups[k0] = append(rs.dups[k0], k)
+					continue
+				}
+			}
+			rs.index[string(s)] = k
 		}
 		if cfg.Runners.Mode != "real" {
 			rs.matrix = BuildMatrix(cfg.Runners, rs.wi.Samples)
+			for k0, ks := range rs.dups {
+				for _, k := range ks {
+					rs.matrix[k] = rs.matrix[k0]
+				}
+			}
 		}
 	}
 	return rs
